@@ -69,7 +69,8 @@ def mk(cid, top_kind, admissions, klass=""):
     content["admissions"], exp["admissions"] = [], []
     for ai, (ak, nm, infos) in enumerate(admissions):
         ay, ae = {}, {}
-        gy, ge = gname(ak, ai + 1)
+        # (kind, i): the authority with number i - 0 is the one of the whole extension, so the same name can stand at both levels
+        gy, ge = gname(ak[0], ak[1], "top" if ak[1] == 0 else "adm") if isinstance(ak, tuple) else gname(ak, ai + 1)
         ae["hasAuthority"], ae["authority"] = gy is not None, ge or {"type": "dns", "bytes": []}
         if gy:
             ay["admissionAuthority"] = gy
@@ -102,6 +103,12 @@ def cases(ctx):
         sel = full
     for (t, a, nm, im) in sel:
         add(t, [(a, nm, [(im, 1 + (nm % 7))])], klass="1x1")
+    # the same authority at both levels and in several admissions: every level carries what it was given (nothing is "covered" by another level)
+    for k in kinds[1:]:
+        add(k, [((k, 0), 1, [(1, 1)])], klass="same-authority")
+        add(k, [((k, 0), 0, [(0, 1)]), (k, 2, [(4, 1)]), ((k, 0), 7, [(2, 1)])], klass="same-authority")
+        add(None, [((k, 5), 1, [(0, 1)]), ((k, 5), 1, [(0, 1)])], klass="same-authority")
+        add(k, [((kinds[1 + kinds[1:].index(k) - 1], 0), 3, [(8, 1)])], klass="same-authority")       # same number, other kind
     # empty lists: professionItems and professionInfos are mandatory members of their SEQUENCE - configured empty they are
     # present and empty, not left out (professionOIDs would otherwise be read as professionItems)
     for im in (0, 2, 4, 8, 14):
@@ -128,7 +135,7 @@ def cases(ctx):
     for i in range(60 if ctx.quick else 20000):
         adms = []
         for _ in range(r.randrange(1, 4)):
-            adms.append((r.choice(kinds), r.randrange(8), [(r.randrange(16), r.randrange(1, 8)) for _ in range(r.randrange(1, 4))]))
+            adms.append((r.choice(kinds + [(k, 0) for k in kinds[1:]]), r.randrange(8), [(r.randrange(16), r.randrange(1, 8)) for _ in range(r.randrange(1, 4))]))
         add(r.choice(kinds), adms, klass="tree")
     return out
 
